@@ -42,6 +42,9 @@ CHECKS = {
  'C11': dict(text="Machine-checked Lean 4 proofs (Mathlib matrices over any commutative ring, any source/destination sizes): LinearMatrix application is linear, adjoint satisfies <f(a),b> = <a,adj(b)> for the coefficient dot product, composition is the product matrix, from_function (images as columns) agrees with g on every basis blade and equals g when g is linear, the from_rotor generating function is linear. PARTIAL: the outermorphism laws (f(A^B)=f(A)^f(B), grade preservation, composition, f(I)=det(m)I) are not theorems yet: _make_outermorphism is modelled executably and the full matrix is compared with the implementation, and the laws are evaluated exactly on the implementation. Tied to /repo by comparing OutermorphismMatrix's full matrix with the model for integer matrices of every shape between layouts of dimension 0..4 (different signatures, custom orders), and evaluating the laws, from_function/from_rotor/adjoint, the wrong-layout and wrong-shape errors, and between_basis_vectors on the real code.",
              technique="Lean 4 proof (matrix algebra for the LinearMatrix layer; partial) + correspondence with the executable outermorphism model",
              design="§6 C11"),
+ 'C18': dict(text="Machine-checked Lean 4 proofs over any commutative ring and any pair of algebras: BladeMap on coefficient vectors (pairs of distinct signed basis blades) is additive and homogeneous, maps every listed blade to its partner, and applied twice is the identity on the span of the listed blades (a projection onto it in general); MVArray.sum/gp/op are left folds from the first element; the innermorphism test on absolute differences is symmetric. PARTIAL: the reciprocal-frame identity a_i|a^j=delta_ij has no theorem; MVArray's element-wise lifts are numpy broadcasting (definitional in the model). Tied to /repo by evaluating, on arrays of shape up to 3-D, every operator for array/array, array/single (either side) and numeric-array/multivector (either side) against the element-by-element results, value/from_value_array, the folds, A(g)/dual/normal mapping, Frame.En/inv/is_innermorphic_to on integer frames in non-degenerate signatures, and BladeMap (sta.bm, sta.split, random signed pairings) against the executable model.",
+             technique="Lean 4 proof (finite-sum algebra of the blade pairing; partial) + element-wise evaluation and correspondence with the executable BladeMap model",
+             design="§6 C18"),
 }
 
 def main():
